@@ -10,6 +10,8 @@ import Tahoe.Mutable.Content
     `enc K MAXSEG s|m DATALEN OFFSET UPLOADSIZE`  → `SEGSIZE NUMSEGS TAIL STARTING END` (setup_encoding_parameters;
        whole-file publish: OFFSET = 0, UPLOADSIZE = DATALEN)
     `rng SEGSIZE OLDSIZE OFF LEN` → `START END` (_do_update_update)
+    `ud K SEGSIZE CONTENTHEX VER START END SH:VER:S:E …` → `STARTHEX ENDHEX` or `err:KIND`: the entries are recorded in
+       order (`_got_update_results_one_share`), then `_decode_and_decrypt_segments` for an object of version VER
     `dec SEGSIZE K SEGNUM CONTENTHEX` → `JOINEDLEN HEX` (Retrieve._decode_blocks: length of the decoder's joined
        output, and the segment after the size_to_use cut) -/
 open Tahoe.Drv Tahoe.Mutable.Content
@@ -93,6 +95,24 @@ def handle : List String → String
       let r := updateRange size seg off len
       s!"{r.1} {r.2}"
     | _, _, _, _ => "bad-op"
+  | "ud" :: k :: seg :: h :: ver :: st :: en :: entries =>
+    match k.toNat?, seg.toNat?, bytesOfHex h, ver.toNat?, st.toNat?, en.toInt? with
+    | some k, some seg, some c, some ver, some st, some en =>
+      if seg = 0 ∨ k = 0 then "bad-op" else
+      let parse (t : String) : Option (Nat × List Item) :=
+        match t.splitOn ":" with
+        | [sh, v, s, e] => do
+            pure ((← sh.toNat?), [.verinfo (← v.toNat?), .blockhashes, .block (← s.toInt?), .block (← e.toInt?)])
+        | _ => none
+      match entries.mapM parse with
+      | none => "bad-op"
+      | some es =>
+        let ud := es.foldl (fun ud (p : Nat × List Item) =>
+          match gotUpdateResults p.2 with | some en => recordUpdate ud p.1 en | none => ud) ([] : UpdateData)
+        match boundarySegmentsOf ud (.verinfo ver) c seg k st en with
+        | .ok (a, b) => s!"{hexOfBytes a} {hexOfBytes b}"
+        | .error e => showErr e
+    | _, _, _, _, _, _ => "bad-op"
   | ["dec", seg, k, sn, h] =>
     match seg.toNat?, k.toNat?, sn.toNat?, bytesOfHex h with
     | some seg, some k, some sn, some c =>
